@@ -179,6 +179,15 @@ class Taint:
                 g = g.parent
             return None
         if isinstance(e, ast.Attribute):
+            # the constructor arguments of an exception: the library raises
+            # its errors with a message or with none, so the tuple may be
+            # empty
+            if e.attr == "args" and isinstance(e.value, ast.Name) and \
+                    f.self_name and e.value.id == f.self_name and \
+                    f.owner_cls is not None and any(
+                        b in ("Exception", "BaseException")
+                        for b in f.owner_cls.builtin_bases()):
+                return "box"
             # a field of a line object that was built from text
             if self.kind_of(f, e.value) == "line" and \
                     not e.attr.startswith("_"):
@@ -492,7 +501,10 @@ class SiteWalker(exc.GuardWalker):
             bk = T.kind_of(f, node.value)
             ik = T.kind_of(f, node.slice)
             base_key = exc.key_of(node.value)
-            if bk == "text":
+            if bk == "text" or (bk == "box" and
+                                isinstance(node.value, ast.Attribute) and
+                                node.value.attr == "args"):
+                # (the second case: the argument tuple of an exception)
                 ci = const_index(node.slice)
                 ok = None
                 if self.in_try({"IndexError"}):
@@ -619,8 +631,15 @@ def run(ctx):
                 if f.cls is not None and f.name.startswith("__") and
                 f.name.endswith("__") and f.name not in ("__init__",
                                                          "__new__")]
+    # the members of the library's exception classes run inside handlers
+    # (hasattr(err, "message"), str(err)): a foreign exception raised there
+    # replaces the library error on its way out
+    err_members = [f for f in repo.functions.values()
+                   if f.cls is not None and any(
+                       b in ("Exception", "BaseException")
+                       for b in f.cls.builtin_bases())]
     reach = set()
-    stack = list(entries) + specials
+    stack = list(entries) + specials + err_members
     while stack:
         f = stack.pop()
         if f in reach:
@@ -1133,6 +1152,78 @@ def run(ctx):
             ctx.violation(R, f_sub.short, "version=%s" % version,
                           "a text line with record type %r is dispatched to "
                           "%r instead of being refused" % (reserved, out[1]))
+    ctx.exhaustive[R] = True
+
+    # -------------------------------------------------------- total writer
+    R = "C07.writer_is_total"
+    ctx.rule(R, "str(line) and str(gfa) write a line whatever its fields "
+             "hold (values of any class can be assigned at vlevel < 3): in "
+             "Writer.to_list and the helpers it calls on self, every call of "
+             "field_to_s and every read of record_type sits inside a try "
+             "whose handler catches every exception (the line is then "
+             "written with an INVALID marker)", floor=3)
+    line_cls = repo.cls("Line")
+    f_tl = ctx.anchor("Line.to_list", line_cls.find_method("to_list"))
+    todo, seen_f, n_sites = [f_tl], set(), 0
+    while todo:
+        g = todo.pop()
+        if g in seen_f:
+            continue
+        seen_f.add(g)
+
+        def scan(stmts, covered, g=g):
+            nonlocal n_sites
+            for st in stmts:
+                if isinstance(st, ast.Try):
+                    wide = exc.try_catches(st, {"<anything>"})
+                    scan(st.body, covered or wide)
+                    for h in st.handlers:
+                        scan(h.body, covered)
+                    scan(st.orelse, covered)
+                    scan(st.finalbody, covered)
+                    continue
+                subs = [getattr(st, a, None) for a in ("body", "orelse")]
+                own = [n for n in ast.iter_child_nodes(st)
+                       if not isinstance(n, ast.stmt)]
+                for top in own:
+                    for n in ast.walk(top):
+                        site = None
+                        if isinstance(n, ast.Call) and \
+                                isinstance(n.func, ast.Attribute) and \
+                                isinstance(n.func.value, ast.Name) and \
+                                n.func.value.id == g.self_name:
+                            if n.func.attr == "field_to_s":
+                                site = "field_to_s"
+                            else:
+                                h = line_cls.find_method(n.func.attr)
+                                if h is not None and not covered and \
+                                        h.module is g.module:
+                                    todo.append(h)
+                        if isinstance(n, ast.Attribute) and \
+                                n.attr == "record_type" and \
+                                isinstance(n.value, ast.Name) and \
+                                n.value.id == g.self_name:
+                            site = "record_type"
+                        if site:
+                            n_sites += 1
+                            ctx.instance(R)
+                            ctx.oblige(covered)
+                            if not covered:
+                                ctx.violation(
+                                    R, g.short, "%s at %s" % (
+                                        site, unparse(st)[:50]),
+                                    "not inside a handler that catches every "
+                                    "exception: an encoder failing with a "
+                                    "foreign exception on a stored value "
+                                    "escapes from str()")
+                for b in subs:
+                    if isinstance(b, list) and b and \
+                            isinstance(b[0], ast.stmt):
+                        scan(b, covered)
+        scan(g.node.body, False)
+    if n_sites < 3:
+        raise AnalysisError("anchor vanished: the guarded field_to_s / "
+                            "record_type sites of Writer.to_list")
     ctx.exhaustive[R] = True
 
     # ------------------------------------------------------------------ rewrap
